@@ -19,7 +19,8 @@ using namespace ikos;
 using namespace crab::domains;
 
 static const int NV = 4;
-typedef std::array<long, NV> cstate;
+static const int NB = 2;   // Boolean variables (only exercised when use_bool is set)
+typedef std::array<long, NV + NB> cstate;
 typedef std::set<cstate> cset;
 static const size_t CAP = 400;
 
@@ -32,23 +33,29 @@ static long tdiv(long a, long b) { return a / b; }
 template <class Dom> struct fuzz {
   variable_factory_t vfac;
   std::vector<z_var> v;
+  std::vector<z_var> bv;
+  bool use_bool = false;
   std::vector<std::string> trace;
   rng r;
   bool failed = false;
   fuzz(unsigned long long seed) : r(seed) {
     const char *names[NV] = {"a", "b", "c", "d"};
     for (int i = 0; i < NV; i++) v.push_back(z_var(vfac[names[i]], crab::INT_TYPE, 32));
+    const char *bnames[NB] = {"p", "q"};
+    for (int i = 0; i < NB; i++) bv.push_back(z_var(vfac[bnames[i]], crab::BOOL_TYPE, 1));
   }
   void log(const std::string &s) { trace.push_back(s); }
   bool contains(Dom d, const cstate &c) {
     for (int i = 0; i < NV; i++) { d += (v[i] == z_number(c[i])); if (d.is_bottom()) return false; }
+    if (use_bool) for (int i = 0; i < NB; i++) { d.assume_bool(bv[i], c[NV + i] == 0 /*negated*/); if (d.is_bottom()) return false; }
     return !d.is_bottom();
   }
   bool check(Dom &d, const cset &cs, const char *what) {
     for (auto &c : cs) if (!contains(d, c)) {
       failed = true;
       crab::outs() << "UNSOUND after " << what << ": state (";
-      for (int i = 0; i < NV; i++) crab::outs() << v[i] << "=" << c[i] << (i + 1 < NV ? "," : "");
+      for (int i = 0; i < NV; i++) crab::outs() << v[i] << "=" << c[i] << ",";
+      for (int i = 0; i < NB; i++) crab::outs() << bv[i] << "=" << c[NV + i] << (i + 1 < NB ? "," : "");
       crab::outs() << ") not in " << d << "\n  trace:\n";
       for (auto &t : trace) crab::outs() << "    " << t << "\n";
       return false; }
@@ -71,6 +78,41 @@ template <class Dom> struct fuzz {
     if (cs.empty()) return true;
     int k = r.in(0, 99);
     std::ostringstream os;
+    if (use_bool && r.in(0, 99) < 35) {
+      int kb = r.in(0, 99); int p = r.in(0, NB - 1), q = r.in(0, NB - 1);
+      if (kb < 35) { // p := (linear constraint)
+        int c0, c[NV]; z_lin_exp_t e = rnd_exp(c0, c, 2); int kind = r.in(0, 2);
+        static const char *kn[] = {"<= 0", "== 0", "!= 0"};
+        os << bv[p].name().str() << " := (" << c0; for (int i = 0; i < NV; i++) if (c[i]) os << " + " << c[i] << "*" << v[i].name().str(); os << " " << kn[kind] << ")"; log(os.str());
+        z_lin_cst_t cst = kind == 0 ? z_lin_cst_t(e <= z_number(0)) : kind == 1 ? z_lin_cst_t(e == z_number(0)) : z_lin_cst_t(e != z_number(0));
+        d.assign_bool_cst(bv[p], cst);
+        cset n; for (auto s : cs) { long val = eval(c0, c, s); s[NV + p] = (kind == 0 ? val <= 0 : kind == 1 ? val == 0 : val != 0) ? 1 : 0; n.insert(s); } cs = n;
+        return check(d, cs, "bool := cst");
+      } else if (kb < 50) { // p := q / !q
+        bool neg = r.in(0, 1); os << bv[p].name().str() << " := " << (neg ? "!" : "") << bv[q].name().str(); log(os.str());
+        d.assign_bool_var(bv[p], bv[q], neg);
+        cset n; for (auto s : cs) { s[NV + p] = neg ? 1 - s[NV + q] : s[NV + q]; n.insert(s); } cs = n;
+        return check(d, cs, "bool := var");
+      } else if (kb < 65) { // p := q op r
+        int r2 = r.in(0, NB - 1); int op = r.in(0, 2); static const char *on[] = {"&", "|", "^"};
+        os << bv[p].name().str() << " := " << bv[q].name().str() << " " << on[op] << " " << bv[r2].name().str(); log(os.str());
+        d.apply_binary_bool(op == 0 ? OP_BAND : op == 1 ? OP_BOR : OP_BXOR, bv[p], bv[q], bv[r2]);
+        cset n; for (auto s : cs) { long a = s[NV + q], b = s[NV + r2]; s[NV + p] = op == 0 ? (a & b) : op == 1 ? (a | b) : (a ^ b); n.insert(s); } cs = n;
+        return check(d, cs, "bool binop");
+      } else if (kb < 88) { // assume p / !p
+        bool neg = r.in(0, 1);
+        cset n; for (auto &s : cs) if ((s[NV + p] != 0) != neg) n.insert(s);
+        if (n.empty()) return true;
+        os << "assume " << (neg ? "!" : "") << bv[p].name().str(); log(os.str());
+        d.assume_bool(bv[p], neg); cs = n;
+        return check(d, cs, "assume bool");
+      } else { // havoc p
+        os << "havoc " << bv[p].name().str(); log(os.str());
+        d -= bv[p];
+        cset n; for (auto s : cs) { s[NV + p] = 0; n.insert(s); s[NV + p] = 1; n.insert(s); } cs = n; cap(cs, r);
+        return check(d, cs, "havoc bool");
+      }
+    }
     if (k < 22) { // assign
       int x = r.in(0, NV - 1), c0, c[NV]; z_lin_exp_t e = rnd_exp(c0, c, 2);
       os << v[x].name().str() << " := " ; os << c0; for (int i = 0; i < NV; i++) if (c[i]) os << " + " << c[i] << "*" << v[i].name().str(); log(os.str());
@@ -146,7 +188,7 @@ template <class Dom> struct fuzz {
     int lo = r.in(-3, 0), hi = r.in(0, 3);
     std::ostringstream os; os << "init all in [" << lo << "," << hi << "]"; log(os.str());
     for (int i = 0; i < NV; i++) { d += (v[i] >= z_number((long)lo)); d += (v[i] <= z_number((long)hi)); }
-    for (long a = lo; a <= hi; a++) for (long b = lo; b <= hi; b++) for (long c = lo; c <= hi; c++) for (long e = lo; e <= hi; e++) { cstate s = {a, b, c, e}; cs.insert(s); }
+    for (long a = lo; a <= hi; a++) for (long b = lo; b <= hi; b++) for (long c = lo; c <= hi; c++) for (long e = lo; e <= hi; e++) { cstate s = {a, b, c, e, 0, 0}; cs.insert(s); if (use_bool) { s[NV] = 1; cs.insert(s); s[NV + 1] = 1; cs.insert(s); s[NV] = 0; cs.insert(s); } }
     cap(cs, r);
     if (!check(d, cs, "init")) return false;
     for (int i = 0; i < steps; i++) if (!step(d, cs, 0)) return false;
@@ -154,10 +196,12 @@ template <class Dom> struct fuzz {
   }
 };
 
+static bool g_use_bool = false;
 template <class Dom> int drive(const char *name, unsigned long long first, int count, int steps) {
   int bad = 0;
   for (int i = 0; i < count; i++) {
     fuzz<Dom> f(first + i);
+    f.use_bool = g_use_bool;
     if (!f.run(steps)) { crab::outs() << "  ^ domain " << name << " seed " << (first + i) << "\n"; bad++; if (bad >= 3) break; }
   }
   crab::outs() << name << ": " << count << " seeds, " << bad << " failing\n";
@@ -170,10 +214,11 @@ int main(int argc, char **argv) {
   unsigned long long first = argc > 2 ? strtoull(argv[2], 0, 10) : 1;
   int count = argc > 3 ? atoi(argv[3]) : 100, steps = argc > 4 ? atoi(argv[4]) : 12;
   if (dn == "tvpi") crab::domains::crab_domain_params_man::get().coefficients().push_back(2);
+  if (dn.size() > 2 && dn.substr(dn.size() - 2) == "+b") { g_use_bool = true; dn = dn.substr(0, dn.size() - 2); }
 #define D(n, T) if (dn == n) return drive<T>(n, first, count, steps) ? 1 : 0;
   D("interval", z_interval_domain_t) D("constant", z_constant_domain_t) D("ric", z_ric_domain_t) D("dbm", z_dbm_domain_t)
   D("sdbm", z_sdbm_domain_t) D("soct", z_soct_domain_t) D("disint", z_dis_interval_domain_t) D("term", z_term_domain_t)
   D("termdbm", z_term_dbm_t) D("num", z_num_domain_t) D("tvpi", z_fixed_tvpi_domain_t) D("boolnum", z_bool_num_domain_t)
-  D("aaint", z_aa_int_t) D("assdbm", z_as_sdbm_t) D("lw", z_soct_domain_lw_t) D("powaa", z_pow_aa_int_t)
+  D("boolint", z_bool_interval_domain_t) D("aabool", z_aa_bool_int_t) D("asbool", z_as_bool_num_t) D("aaint", z_aa_int_t) D("assdbm", z_as_sdbm_t) D("lw", z_soct_domain_lw_t) D("powaa", z_pow_aa_int_t)
   crab::outs() << "unknown domain\n"; return 2;
 }
